@@ -519,6 +519,23 @@ def workload(ctx):
                     e = build(kind, kids)
                     ctx.case(("np", normal.typed_key(e)), True, n=0)
                     ctx.run("C06.numpy", (e,))
+        # depth: every node kind nested in itself at every operand position, 3 .. 8 levels (and
+        # 20, 64 for the binary operators): a ** b ** c ** d, a - (b - (c - d)), not not not a,
+        # f(f(f(a))), a[a[a[b]]], x if (y if ... else ...) else ...
+        for kind in kinds:
+            arity = NODES[kind][0]
+            for pos in range(arity):
+                for depth in (3, 4, 5, 6, 8) + ((20, 64) if kind in REDUCED else ()):
+                    if not ctx.mine("towers"):
+                        continue
+                    e = D
+                    for lvl in range(depth):
+                        kids = [FILL[(i + lvl) % 3] for i in range(arity)]
+                        kids[pos] = e
+                        e = build(kind, kids)
+                    ctx.case(("tower", kind, pos, depth), True, n=0)
+                    ctx.count("towers_of_one_kind")
+                    ctx.run("C06.roundtrip", (e,))
         # sharing: ONE composite object at two places of the tree whose contexts differ (a tree
         # built by a program that names a sub-expression and uses it twice; the parser and the
         # generators above only ever make equal copies)
@@ -547,6 +564,7 @@ def workload(ctx):
             ctx.count("handler:" + k, v)
     ctx.floor("wide_nodes", 2000)
     ctx.floor("shared_node_trees", 600)
+    ctx.floor("towers_of_one_kind", 400)
     ctx.floor("refused_between_reads", 80)
     ctx.floor("hook_roundtrips", 300)
     ctx.floor("long_names_and_big_constants", 60)
